@@ -159,7 +159,7 @@ def run_case(case):
                 got = np.asarray(im, dtype=np.float64)
                 tol = 1e-3 * ref.max() if dt == "float16" else 1e-6 * max(1.0, ref.max())
                 if got.shape != ref.shape or np.abs(got - ref).max() > tol:
-                    viol.append((sig("image-values"), f"{dt} image with values {lo}..{hi}, b={b}, compute={compute}: binned image differs from the block sums by {np.abs(got - ref).max():.5g} (sums up to {ref.max():.5g})"))
+                    viol.append((sig("image-values"), f"{dt} image with values {lo}..{hi}, b={b}, compute={compute}: binned image " + (f"has shape {got.shape}, the block sums have {ref.shape}" if got.shape != ref.shape else f"differs from the block sums by {np.abs(got - ref).max():.5g} (sums up to {ref.max():.5g})")))
                     break
             sub = np.asarray(lb.asnumpy(), dtype=np.float64).reshape(-1)
             want = [blocksum(im_.astype(np.float64), b)[1, 1, 1] for im_ in imgs]
